@@ -195,8 +195,7 @@ class GM:
             if n is None:
                 n = 1
             if len(a) < n:
-                self.crashed = True
-                return
+                return  # too few operands for the space it believes to be current: ignored
             a = a[len(a) - n:]
             if not all(gfx.is_num(x) for x in a):
                 return
@@ -320,7 +319,7 @@ def classify(events, obs, exc) -> List[str]:
         if true.illformed_sc:
             return ["C16/colour-operator-with-missing-operands-raises"]
         return [f"C16/exception:{es}"]
-    for k in (1, 2, 3):
+    for k in range(1, len(DEVIATIONS) + 1):
         for devs in itertools.combinations(DEVIATIONS, k):
             alt = run_model(events, frozenset(devs))
             if not alt.crashed and not diff(list(alt.out), obs):
